@@ -42,12 +42,12 @@ from props.base import corpus_for  # noqa: F401
 ID = 'C16'
 LEAN_MODULES = ['PybtexModel.Props.C16']
 THEOREMS = {
-    'C16_render_total': 'format_error is defined for every error value of every class and is context lines ++ [prefix ++ str(error)], each line prefixed by the file name when there is one',
+    'C16_render_total': 'UNDER Err.WF (a condition for TokenRequired only: parser state in range; next entry, ASSUMPTIONS) format_error is DEFINED for every error value of every class [the content]. Conjuncts 2-3 (= context lines ++ [prefix ++ str(error)], each prefixed by the file name) are [model wiring]: they restate the model function formatErrorLines; the shape is carried by the render_shape clause of the correspondence',
     'C16_render_total_other_classes': 'only TokenRequired carries a well-formedness condition (parser state in range); every other class renders unconditionally',
-    'C16_render_filename': 'with a file name every rendered line starts with "<file>: " and the last line is the prefixed message',
-    'C16_render_no_filename': 'without a file name the lines are exactly context ++ [prefix ++ message]',
+    'C16_render_filename': 'under Err.WF, with a non-empty file name every rendered line starts with "<file>: " and the last line is the prefixed message',
+    'C16_render_no_filename': 'under Err.WF, without a file name (or with an empty one) the lines are exactly context ++ [prefix ++ message]',
     'C16_class_list_exact': 'the class list the harness compares with the PybtexError subclasses enumerated from the source is exactly the set of classes the model has values (a rendering) for: nothing listed without rendering, nothing rendered that is not listed',
-    'C16_mode_independent': 'for a computation reporting e1..en: capture collects exactly [e1..en] and restores the state; non-strict prints the same n warnings in order, error_code = 2 iff n > 0; strict raises e1 first, changes nothing, and its problems are a prefix of the others',
+    'C16_mode_independent': 'for a computation ABSTRACTED as a fixed report list e1..en + optional fatal error (Comp: all three runs consume the same list, so "same problems, same order" is built into the abstraction; TRUSTED, C16_bib_reader_mode_independent): capture collects exactly [e1..en] and restores the state; non-strict prints the same n warnings in order, error_code = 2 iff n > 0; strict raises e1 first, changes nothing, and its problems are a prefix of the others',
     'C16_warning_text': 'the warning printed in non-strict mode is the rendering with the WARNING prefix, defined for every error',
     'C16_exit_status': "command line (main resets error_code first, so from ANY module state outside a capture): status 0 iff nothing reported, 2 iff only warnings, 1 iff a pybtex error escaped; stderr = the warnings in order then the fatal error; the caller's strict is put back, error_code is left as this run's 0 / 2",
     'C16_capture_restores': '[contexts left innermost first = with blocks] after ANY balanced pattern of nested / aborted capture contexts, from ANY configuration: enclosing frames untouched, captured_errors back to what it was (+ the reports made directly at that level), strict = last set_strict_mode, error_code unchanged unless a warning was printed',
@@ -57,11 +57,15 @@ THEOREMS = {
     'C16_direct_body': 'the reference "reports made directly in the body" depends on the body only',
     'C16_wellBracketed_balanced': 'every history of the well-bracketed grammar satisfies the decidable hypothesis (induction over well-bracketed histories)',
     'C16_balanced_iff_wellBracketed': 'the decidable bracket check and the well-bracketed grammar describe the same histories',
-    'C16_history_refines_spec': 'every report of every history does what the reference semantics says from nesting depth and strict flag alone; error_code ends as the reference says',
+    'C16_history_refines_spec': 'for every history that STARTS OUTSIDE any capture context (captured_errors None, no open frame) and NEVER LEAVES A CONTEXT IT DID NOT ENTER (depthAfter 0 ops '
+                                'is defined; contexts may stay open at the end): every report does what the reference semantics says from nesting depth and strict flag alone; error_code '
+                                'ends as the reference says',
     'C16_error_code_monotone': 'error_code is unchanged or 2, is 2 once a warning was printed, and never decreases along a history',
-    'C16_location_stable': 'errors are built from the mutable parse state at the moment of the report and keep that location whatever follows',
-    'C16_location_snapshot': 'file name and line of .aux and scanner errors are those of the parse state they were built from',
-    'C16_no_foreign_exception': 'format letters accepted by check_format_chars are accepted by NamePart (BibTeXNameFormatError unreachable, format char in flvj); SkipEntry does not leave parse_bibliography',
+    'C16_location_stable': '[model wiring] CAPTURE MODE ONLY: after h1 ++ h2 the captured list is l ++ errors built during h1 from the states current at their reports ++ those of h2. True by construction of a pure model (error values are immutable data); the real claim, Python error objects do not alias the mutable context, is carried by mkAuxError (fix C20-2) and the location_stable clause of the correspondence',
+    'C16_location_stable_all_modes': '[model wiring, same caveat] the same OUTSIDE capture, strict and non-strict: the observations of a world history are in order the errors built from the '
+                                     'states current at their reports, each raised / printed, unchanged by any continuation; captured_errors stays None',
+    'C16_location_snapshot': '[model wiring] one definitional unfolding (rfl): getFilename / str of mkAuxError and mkTokenRequired read the filename / lineno fields of the state they were built from; that the Python constructors copy these fields is the modelling decision, carried by the correspondence (errrender, location_stable clause)',
+    'C16_no_foreign_exception': 'conjunct 1 [content]: format letters accepted by check_format_chars are accepted by NamePart (BibTeXNameFormatError unreachable, format char in flvj). Conjunct 2 [model wiring]: "SkipEntry does not leave parse_bibliography" is rfl on the three-line guardCommand (type-level, see LEVEL_NOTE); carried by the foreign_exception clause of the correspondence',
     'C16_capture_LIFO_embedding': 'the LIFO assumption of the capture theorems is an embedding: a history of with blocks is the free-order history whose exits leave the most recently entered manager, and the free-order machine (each manager keeps its own value to restore) does on it exactly what the stack machine does',
     'C16_capture_nonLIFO_neg': 'NOT LIFO (enter A, enter B, leave A, leave B): every context has been left but captured_errors is a list for ever, later problems are swallowed -- "leaving capture mode always restores" holds for with blocks only',
     'C16_bib_reader_exits_listed': 'every exit of the .bib reader model (C10) -- each problem reported, the error raised in strict mode -- for EVERY text / mode / wanted set / macro table is an exception object of one of 8 listed PybtexError subclasses; nothing is lost reading the run as a computation; class and str(error) do not depend on what the reader model leaves out',
@@ -71,7 +75,7 @@ THEOREMS = {
     'C16_main_strict_option': 'the real main() with --strict anywhere among accepted options, from ANY module state: the first problem is the only thing on stderr (ERROR prefix), status 1; without problems status 0; afterwards strict is what the caller had and error_code is 0',
     'C16_main_exit_status': 'main() without --strict is the non-strict run whatever strict and error_code were before: warnings in order then the fatal error; status 1 / 2 / 0 = the reference status of the input; a command line that is not accepted (wrong argument count, rejected option, unknown plug-in) never ends with status 0',
     'C16_main_history_independent': "main() neither depends on nor disturbs the caller's reporting state (repair 8c0015f): from ANY state outside a capture its stderr and exit status are those of the same command line in a fresh interpreter; afterwards strict is the caller's on every way out (options accepted or rejected, --help, unknown plug-in, wrong argument count, fatal error, --strict raise), no capture is open, error_code is 0 or 2; in a sequence of runs in one interpreter every run has the status of its own input",
-    'C16_bst_run_end_partial': 'a BibTeX-engine run (C03 interpreter model on the lazily parsed program) is classified as a non-pybtex exception ONLY where that model says Python raises one (IErr.internal), as unknown ONLY on fuel exhaustion; a .bst syntax error is the error of the C15 parser model (PrematureEOF / TokenRequired); a finished run has a program that parses completely',
+    'C16_bst_run_end_partial': 'conjuncts 1-2 [content]: a finished BibTeX-engine run (C03 interpreter model, lazily parsed program) has a program that parses completely; a .bst syntax error is the C15 parser model\'s, of a listed class. Conjuncts 3-4 [model wiring]: "foreign ONLY at IErr.internal, unknown ONLY on fuel exhaustion" is the definition of the classifier bstRun (4 also excludes a parser error without pybtex counterpart). Nothing is said about real runs (see _neg): that is errmodes',
     'C16_bst_run_foreign_neg': 'the recorded finding C16-bst-illformed-program: "a" #1 +, EXECUTE {cite$}, ITERATE {undefined} have no pybtex outcome (TypeError / AttributeError / KeyError in the Python code)',
 }
 RULE = ('errmodes also: every .bst run-time fault of a table x 2 databases, real styles and the 4 Python styles x every fault entry x 2 citation '
@@ -2387,7 +2391,10 @@ LEVEL_NOTE = ('Trusted: Lean kernel; axioms propext/Classical.choice/Quot.sound 
               'in LIFO order.  The model follows the tree WITH proposed_fixes C16-1 (capture restores the previous list), C16-2 '
               '(PluginNotFound without assert), C20-1/2 (AuxDataError) and C16-3 ... C16-7 (unknown entry type, YAML / BibTeXML readers, '
               'unrenderable chr.to.int$ / int.to.chr$ errors, file objects as file names); SkipEntry containment is by the shape of one try/except, '
-              'carried by the model only as a type-level statement.')
+              'carried by the model only as a type-level statement.  Definitional ([model wiring] in THEOREMS): C16_location_stable / _all_modes / _snapshot (a pure model cannot alias; '
+              'non-aliasing of the Python error objects is checked by the location_stable oracle clause only), conjuncts 2-3 of C16_render_total, conjuncts 3-4 of C16_bst_run_end_partial '
+              '(definition of the classifier), and Spec.modes (collected = printed = the reports of the SAME Comp: "same set and order in all modes" is built into the computation abstraction; '
+              'only the .bib reader is proved mode independent through its own strict run).  C16_history_refines_spec starts outside any context and never leaves one it did not enter.')
 
 
 EXPECT.update({(k, t): e for k, t, e in READER_CASES})
